@@ -124,7 +124,7 @@ type ruleSummary struct {
 	Floor      int    `json:"floor"`
 }
 
-func (r *Report) write(verifDir, tier string, seed int64, wall float64, c *Ctx, kf *knownFile, explanation string, notDecided string, selftest map[string]interface{}) (violations int, knownHit []knownEntry) {
+func (r *Report) write(verifDir2, tier string, seed int64, wall float64, c *Ctx, kf *knownFile, explanation string, notDecided string, selftest map[string]interface{}) (violations int, knownHit []knownEntry) {
 	known := map[string]knownEntry{}
 	for _, k := range kf.Known {
 		if k.Property == r.Prop {
@@ -222,10 +222,10 @@ func (r *Report) write(verifDir, tier string, seed int64, wall float64, c *Ctx, 
 		"wall_s":     wall,
 		"violations": len(viol),
 	}
-	_ = os.MkdirAll(filepath.Join(verifDir, "evidence"), 0o755)
+	_ = os.MkdirAll(filepath.Join(verifDir2, "evidence"), 0o755)
 	out, _ := json.MarshalIndent(ev, "", " ")
-	_ = os.WriteFile(filepath.Join(verifDir, "evidence", r.Prop+".json"), out, 0o644)
-	vpath := filepath.Join(verifDir, "evidence", r.Prop+".violations.json")
+	_ = os.WriteFile(filepath.Join(verifDir2, "evidence", r.Prop+".json"), out, 0o644)
+	vpath := filepath.Join(verifDir2, "evidence", r.Prop+".violations.json")
 	if len(viol) > 0 {
 		vout, _ := json.MarshalIndent(map[string]interface{}{"property": r.Prop, "violations": viol, "rules": sums}, "", " ")
 		_ = os.WriteFile(vpath, vout, 0o644)
